@@ -33,6 +33,8 @@ structure DSt where
   acq : Array Bool := #[]
   holders : List (Nat × Bool) := []        -- implementation: who believes to hold (from markers)
   present : List String := []              -- implementation: lock files in the backend (from ok saves/removes)
+  own : List (String × Nat) := []          -- implementation: which process saved which lock file
+  modelErr : Option Verdict := none        -- first step of the trace the model does not allow (replay stops there)
   labels : List String := []
   nacq : Nat := 0
   nlockers : Nat := 0
@@ -70,13 +72,32 @@ def specCheck (st : DSt) (ctx : String) : Except Verdict DSt :=
     let ex := (st.holders.filter (·.2)).length
     .error (.specfalse (if ex ≥ 2 then "C12:two-exclusive-holders" else "C12:exclusive-and-shared-holder") s!"{ctx} holders={st.holders}")
   else
-    match st.holders.find? (fun h =>
-      let nm := st.names.getD h.1 (none, none)
-      !((match nm.1 with | some n => st.present.contains n | none => false) ||
-        (match nm.2 with | some n => st.present.contains n | none => false))) with
+    match st.holders.find? (fun h => !(st.own.any fun o => o.2 == h.1 && st.present.contains o.1)) with
     | some h => .error (.specfalse "C12:holder-without-lock-file" s!"{ctx} process {h.1} believes it holds the lock but none of its lock files is in the backend")
     | none =>
-      if !mutexB st.sys then .error (.differ "model" "mutexB false on the model state") else .ok st
+      if st.modelErr.isNone && !mutexB st.sys then .ok { st with modelErr := some (.differ "model" "mutexB false on the model state") } else .ok st
+
+/-- implementation-only bookkeeping of one record (always done, also after the model replay stopped) -/
+def implTrack (st : DSt) (r : Array String) : Except Verdict DSt :=
+  let i := (r.getD 2 "0").toNat?.getD 0
+  match r.getD 0 "" with
+  | "ev" =>
+    let op := r.getD 3 ""; let name := r.getD 4 "-"; let ok := r.getD 5 "0" == "1"
+    if op == "save" && ok then .ok { st with present := name :: st.present, own := (name, i) :: st.own }
+    else if op == "remove" && ok then
+      -- a remover deleting the lock of a process that believes to hold it
+      let owner := (st.own.find? (·.1 == name)).map (·.2)
+      if st.kinds.getD i "locker" == "remover" && (match owner with | some j => st.holders.any (·.1 == j) && !(st.own.any fun o => o.2 == j && o.1 != name && st.present.contains o.1) | none => false) then
+        .error (.specfalse "C12:stale-removal-of-active-lock" s!"remover {i} deleted lock {name}, the only lock file of a process that believes it holds the lock")
+      else .ok { st with present := st.present.erase name }
+    else .ok st
+  | "mk" =>
+    let excl := st.excls.getD i false
+    match r.getD 3 "" with
+    | "acq" => .ok ({ st with holders := (i, excl) :: st.holders, acq := st.acq.set! i true, nacq := st.nacq + 1 }.label (if excl then "acq-excl" else "acq-shared"))
+    | "rel" | "crash" => .ok { st with holders := st.holders.filter (·.1 != i) }
+    | _ => .ok st
+  | _ => .ok st
 
 def handleEv (st : DSt) (r : Array String) : Except Verdict DSt := do
   let t := (r.getD 1 "0").toNat?.getD 0
@@ -102,7 +123,6 @@ def handleEv (st : DSt) (r : Array String) : Except Verdict DSt := do
   | "load" | "stat" => .ok st
   | "save" =>
     if !ok then .ok (st.label "save-failed") else
-    let st := { st with present := name :: st.present }
     match pcOf st i with
     | .checked1 =>
       match act st i .create with
@@ -114,7 +134,7 @@ def handleEv (st : DSt) (r : Array String) : Except Verdict DSt := do
       | none => .error (.differ "refreshCreate" "not enabled")
     | pc => .error (.differ "save" s!"process {i} writes a lock file in model state {repr pc} (no passing first check before create?) t={t}")
   | "remove" =>
-    let st := if ok then { st with present := st.present.erase name } else st.label "remove-of-missing-file"
+    let st := if ok then st else st.label "remove-of-missing-file"
     match ownerOf st name with
     | none => .error (.differ "remove" s!"unknown lock file {name}")
     | some (j, second) =>
@@ -127,9 +147,7 @@ def handleEv (st : DSt) (r : Array String) : Except Verdict DSt := do
           match act st j (.removeDead second) with
           | some s => .ok ((clr s).label "stale-removed-dead-owner")
           | none =>
-            if st.holders.any (·.1 == j) then
-              .error (.specfalse "C12:stale-removal-of-active-lock" s!"remover {i} deleted lock {name} of process {j} which believes it holds the lock")
-            else .error (.differ "remover" s!"model: lock {name} of process {j} is neither stale nor its owner dead")
+            .error (.differ "remover" s!"model: lock {name} of process {j} is neither stale nor its owner dead")
       else if j != i then .error (.differ "remove" s!"process {i} removes lock {name} of process {j}")
       else if second then .error (.differ "remove" s!"process {i} removes its replacement lock {name}")
       else
@@ -159,20 +177,18 @@ def handleMk (st : DSt) (r : Array String) : Except Verdict DSt := do
   let i := (r.getD 2 "0").toNat?.getD 0
   let what := r.getD 3 ""
   let st ← advanceTo st t
-  let excl := st.excls.getD i false
   match what with
   | "acq" =>
     if pcOf st i != .holding then
       .error (.differ "acq" s!"process {i} acquired the lock, the model is in state {repr (pcOf st i)} (a conflicting lock was present at its second check) t={t}") else
-    let st := { st with holders := (i, excl) :: st.holders, acq := st.acq.set! i true, nacq := st.nacq + 1 }
-    .ok (st.label (if excl then "acq-excl" else "acq-shared"))
+    .ok st
   | "rel" =>
     match act st i .giveUp with
-    | some s => .ok { s with holders := s.holders.filter (·.1 != i) }
+    | some s => .ok s
     | none => .error (.differ "rel" s!"model: process {i} is not holding")
   | "crash" =>
     match act st i .crash with
-    | some s => .ok ({ s with holders := s.holders.filter (·.1 != i) }.label "crash")
+    | some s => .ok (s.label "crash")
     | none => .error (.differ "crash" "not enabled")
   | "fail-locked" | "fail-err" =>
     let st := st.label what
@@ -201,17 +217,31 @@ def handleC12 (c : Case) : Verdict :=
     excls := procs.map (·.getD 3 "0" == "1"),
     acq := procs.map fun _ => false,
     present := ghosts.toList.map (·.getD 1 "?"),
+    own := ghosts.toList.zipIdx.map (fun (r, k) => (r.getD 1 "?", procs.size + k)),
     nlockers := (procs.filter (·.getD 2 "" == "locker")).size,
     labels := (ghosts.toList.map fun r => s!"ghost-{r.getD 2 "?"}").eraseDups }
+  -- model replay of one record; a step the model does not allow stops the replay (remembered), the
+  -- evaluation of the property on the implementation's observations goes on
+  let replay (st : DSt) (r : Array String) : DSt :=
+    if st.modelErr.isSome then st else
+    let res := match r.getD 0 "" with
+      | "ev" => handleEv st r
+      | "mk" => handleMk st r
+      | _ => .ok st
+    match res with
+    | .ok s => s
+    | .error v => { st with modelErr := some v }
   let res := c.recs.foldlM (init := st0) fun st r =>
     match r.getD 0 "" with
-    | "ev" => (handleEv st r).bind fun s => specCheck s s!"after {r.toList}"
-    | "mk" => (handleMk st r).bind fun s => specCheck s s!"after {r.toList}"
-    | "status" => if r.getD 1 "" == "ok" then .ok st else .error (.differ "harness" s!"status-{r.getD 1 ""}")
+    | "ev" | "mk" => (implTrack (replay st r) r).bind fun s => specCheck s s!"after {r.toList}"
+    | "status" => if r.getD 1 "" == "ok" then .ok st else .ok { st with modelErr := st.modelErr.orElse fun _ => some (.differ "harness" s!"status-{r.getD 1 ""}") }
     | _ => .ok st
   match res with
   | .error v => v
   | .ok st =>
+    match st.modelErr with
+    | some v => v
+    | none =>
     let nexcl := ((List.range st.nlockers).filter fun i => st.excls.getD i false && st.kinds.getD i "" == "locker").length
     let lockers := (List.range st.kinds.size).filter fun i => st.kinds.getD i "" == "locker"
     let st := if nexcl ≥ 2 then st.label "two-exclusive-candidates" else if nexcl == 1 && lockers.length ≥ 2 then st.label "exclusive-vs-shared" else st.label "shared-only"
